@@ -59,6 +59,11 @@ func c15Harness(cfg *Cfg) func(x *mc.Exec) {
 	bufios := []int{0, 16, 4096}
 	chunks := []int{0, 3}
 	pols := []env.ReadPolicy{env.PolicyAll, env.Policy7, env.Policy1}
+	if cfg.Thorough {
+		bufios = []int{0, 16, 17, 64, 328, 4096, 65536}
+		chunks = []int{0, 1, 3, 13}
+		pols = []env.ReadPolicy{env.PolicyAll, env.Policy4096, env.Policy258, env.Policy7, env.Policy1, env.PolicyAlt}
+	}
 	return func(x *mc.Exec) {
 		st := streams[x.Choose(len(streams), "stream")]
 		n := len(st.bytes)
